@@ -60,7 +60,16 @@ class UnitResult:
         self.raised_allowed = 0
 
 
-def decide(src_or_tree, transformer, N, res, label, rtypes=None, sigs=None, allowed_exc=(), free_check=True, payload_extra=None):
+def compiles(tree):
+    try:
+        compile(ast.fix_missing_locations(ast.Expression(copy.deepcopy(tree))), "<output>", "eval")
+        compile(ast.unparse(tree), "<unparsed output>", "eval")
+        return None
+    except Exception as e:  # noqa
+        return "%s: %s" % (type(e).__name__, e)
+
+
+def decide(src_or_tree, transformer, N, res, label, rtypes=None, sigs=None, allowed_exc=(), free_check=True, payload_extra=None, compile_check=False):
     """run the real transformer on a copy of the program and decide the TV queries; records into res"""
     P = ast.parse(src_or_tree, mode="eval").body if isinstance(src_or_tree, str) else src_or_tree
     src = ast.unparse(P)
@@ -75,6 +84,12 @@ def decide(src_or_tree, transformer, N, res, label, rtypes=None, sigs=None, allo
     except Exception as e:  # noqa
         res.violations.append(dict(engine="T", transformer=transformer, program=src, N=N, kind="transformer raised %s: %s" % (type(e).__name__, e), label=label))
         return "violation"
+    if compile_check:
+        why = compiles(P2)
+        if why:
+            res.violations.append(dict(engine="T", transformer=transformer, program=src, N=N, kind="output cannot be unparsed and compiled (%s)" % why, label=label,
+                                       output_dump=ast.dump(P2)[:600], compile_check=True))
+            return "violation"
     rt = dict(gen.RTYPES)
     rt.update(rtypes or {})
     status, d = tv.tv_pair(P, P2, N=N, rtypes=rt, sigs=sigs, stats=res.stats)
@@ -105,7 +120,7 @@ def unit_grammar(u):
     for q, code in gen.enumerate_all(lambda ch: gen.G(ch, u["form"], feats).chain(u["stages"], u["depth"]), u["maxpicks"], fixed=tuple(u["fixed"])):
         for scheme in u["schemes"]:
             P = gen.rename_binders(q, scheme)
-            decide(P, u["transformer"], u["N"], res, "grammar/%s/%s" % (u["form"], scheme))
+            decide(P, u["transformer"], u["N"], res, "grammar/%s/%s" % (u["form"], scheme), compile_check=u.get("compile_check", False))
     return res
 
 
@@ -128,7 +143,7 @@ def unit_random(u):
             continue
         seen.add(s)
         n += 1
-        decide(P, u["transformer"], u["N"], res, "random/%s/%s" % (u["form"], u["scheme"]))
+        decide(P, u["transformer"], u["N"], res, "random/%s/%s" % (u["form"], u["scheme"]), compile_check=u.get("compile_check", False))
     return res
 
 
@@ -136,7 +151,8 @@ def unit_sources(u):
     "explicit program sources (mechanism families, regression programs)"
     res = UnitResult()
     for src in u["sources"]:
-        decide(src, u["transformer"], u["N"], res, u.get("label", "family"), allowed_exc=tuple(u.get("allowed_exc", ())), rtypes=u.get("rtypes"))
+        decide(src, u["transformer"], u["N"], res, u.get("label", "family"), allowed_exc=tuple(u.get("allowed_exc", ())), rtypes=u.get("rtypes"),
+               compile_check=u.get("compile_check", False))
     return res
 
 
@@ -169,6 +185,8 @@ def run_units(units):
             total.inconclusive += r.inconclusive
             total.harness += r.harness
             total.raised_allowed += r.raised_allowed
+            for k in ("refused", "py_chain_runs", "cases"):
+                setattr(total, k, getattr(total, k, 0) + getattr(r, k, 0))
     return total
 
 
@@ -209,7 +227,7 @@ def fold_into(run, res, what):
 def replay_payload(payload):
     "re-decide one recorded program (./vf replay)"
     res = UnitResult()
-    status = decide(payload["program"], payload["transformer"], payload.get("N", 2), res, "replay")
+    status = decide(payload["program"], payload["transformer"], payload.get("N", 2), res, "replay", compile_check=payload.get("compile_check", False))
     print(status, res.violations[:1] or res.harness[:1] or res.inconclusive[:1])
     return 1 if res.violations else (3 if res.harness else 0)
 
@@ -299,3 +317,146 @@ def unit_helpers(u):
 
 
 UNITS["helpers"] = unit_helpers
+
+
+class _RootToDs(ast.NodeTransformer):
+    "the EventDataset() root node of an emitted query stands for `ds`"
+
+    def visit_Call(self, n):
+        if isinstance(n.func, ast.Name) and n.func.id == "EventDataset" and not n.args:
+            return ast.Name("ds", ast.Load())
+        return self.generic_visit(n)
+
+
+def run_async(coro):
+    try:
+        coro.send(None)
+    except StopIteration as e:
+        return e.value
+    raise RuntimeError("executor suspended")
+
+
+def unit_chains(u):
+    """C01: generated modules with fluent chains through the real API; truth = the chain as written (function form, captured values
+    substituted); compared at the executor and after the backend passes"""
+    from vlib import srcgen
+    from vlib.qsem import world
+    from vlib.skel import chains
+    res = UnitResult()
+    typed = u["typed"]
+    cases_ = chains.cases(u["seed"], u["count"], typed, start=u.get("start", 0))
+    text = chains.module_text(cases_, typed)
+    sigs = chains.typed_sigs() if typed else None
+    rtypes = dict(chains.TYPED_RTYPES) if typed else {}
+    res.cases = len(cases_)
+    with srcgen.Scratch() as sc:
+        try:
+            mod = sc.load(text, "c01")
+        except Exception as e:  # noqa
+            res.harness.append("generated module does not import: %r\n%s" % (e, text[-1500:]))
+            return res
+        mast = ast.parse(text)
+        for i, c in enumerate(cases_):
+            idx = u.get("start", 0) + i
+            build = getattr(mod, "build_%d" % idx)
+            ds = mod.TDS() if typed else mod.UDS()
+            try:
+                streams = build(ds)
+            except ValueError as e:
+                if str(e).startswith("The Where filter must return a boolean") or str(e).startswith("IfExp branches have different types"):
+                    res.refused = getattr(res, "refused", 0) + 1    # designed refusal: the type follower cannot establish the type
+                    continue
+                res.violations.append(dict(engine="T", kind="building the chain raised ValueError: %s" % e, program=c["build"], label="chain", N=u["N"], unit="chains", typed=typed))
+                continue
+            except Exception as e:  # noqa
+                res.violations.append(dict(engine="T", kind="building the chain raised %s: %s" % (type(e).__name__, e), program=c["build"], label="chain", N=u["N"], unit="chains", typed=typed))
+                continue
+            for st, truth_src in zip(streams, c["truths"]):
+                P = ast.parse(truth_src, mode="eval").body
+                try:
+                    emitted = run_async(st.value_async())
+                except Exception as e:  # noqa
+                    res.violations.append(dict(engine="T", kind="value_async raised %s: %s" % (type(e).__name__, e), program=c["build"], label="chain", N=u["N"], unit="chains", typed=typed))
+                    continue
+                A0 = _RootToDs().visit(copy.deepcopy(emitted))
+                points = [("executor", A0)]
+                try:
+                    A1 = t_fnform(copy.deepcopy(A0))
+                    A2 = t_aggregate(copy.deepcopy(A1))
+                    A3 = t_simplify(copy.deepcopy(A2))
+                    if u.get("all_points"):
+                        points += [("after method->function form", A1), ("after aggregate shortcuts", A2)]
+                    points.append(("after the three backend passes", A3))
+                except Exception as e:  # noqa
+                    res.violations.append(dict(engine="T", kind="backend pass raised %s: %s" % (type(e).__name__, e), program=c["build"], truth=truth_src, label="chain", N=u["N"], unit="chains", typed=typed))
+                    continue
+
+                def env_builder(cx):
+                    return helper_funs(mast, {"h_inc", "h_gt"})
+
+                def extra_env(w):
+                    return {"h_inc": mod.h_inc, "h_gt": mod.h_gt}
+                for label, A in points:
+                    s = decide_pair(P, A, u["N"], res, "chain/%s/%s" % ("typed" if typed else "untyped", label), env_builder=env_builder, extra_env=extra_env,
+                                    rtypes=rtypes, sigs=sigs, payload_extra={"build": c["build"], "truth": truth_src, "unit": "chains", "typed": typed, "point": label})
+                    if s != tv.OK:
+                        break
+            # the chain as Python runs it, on a concrete dataset: compared with CPython's evaluation of the truth AST
+            try:
+                pychk = python_chain_check(mod, build, c, sigs, rtypes, u["N"], u["seed"] + i)
+                res.stats.checks += 0
+                if pychk:
+                    res.harness.append("truth AST disagrees with the Python chain itself: %s\n%s" % (pychk, c["build"][:600]))
+                else:
+                    res.py_chain_runs = getattr(res, "py_chain_runs", 0) + 1
+            except Exception as e:  # noqa
+                res.harness.append("python chain check crashed: %r\n%s" % (e, c["build"][:400]))
+    return res
+
+
+def python_chain_check(mod, build, case, sigs, rtypes, N, seed):
+    """validates the oracle: the generated chain, run by CPython with its real lambdas on an in-memory dataset, equals CPython's
+    evaluation of the truth AST on the same dataset (dataset taken from a satisfying model of 'the truth runs without error')"""
+    import z3
+    from vlib.qsem import enc, world
+    for truth_src in case["truths"][:1]:
+        P = ast.parse(truth_src, mode="eval").body
+        rt = dict(gen.RTYPES)
+        rt.update(rtypes or {})
+        cx = enc.Ctx(N=N, sigs=sigs, rtypes=rt)
+        mast_h = ast.parse(inspect_source(mod))
+        env = {"ds": enc.dataset(cx)}
+        env.update(helper_funs(mast_h, {"h_inc", "h_gt"}))
+        try:
+            vo, eo = enc.encode(cx, P, env)
+        except enc.EncodingError:
+            return None
+        s = z3.Solver()
+        s.set("timeout", 10000)
+        s.add(cx.side)
+        s.add(cx.distinctness())
+        s.add(z3.Not(z3.Or(eo)) if eo else z3.BoolVal(True))
+        s.add(z3.Int("ds.len") >= min(1, N))
+        if str(s.check()) != "sat":
+            return None
+        w = world.World(cx, s.model())
+        e = w.env({"h_inc": mod.h_inc, "h_gt": mod.h_gt})
+        want = world.run(P, e)
+        got_streams = build(world.PyStream(e["ds"], dict(e, Pair=mod.Pair, PairNT=mod.PairNT)))
+        got = ("ok", world.norm(got_streams[0]))
+        if want != got:
+            return "truth %r vs python chain %r" % (want, got)
+    return None
+
+
+_SRC_CACHE = {}
+
+
+def inspect_source(mod):
+    if mod.__name__ not in _SRC_CACHE:
+        with open(mod.__file__) as f:
+            _SRC_CACHE[mod.__name__] = f.read()
+    return _SRC_CACHE[mod.__name__]
+
+
+UNITS["chains"] = unit_chains
